@@ -160,6 +160,17 @@ func planC14members(c *Ctx, run int64) *Plan {
 		add("retype", "/doc", Op{I: 1})
 		add("code", "/doc/$schema", Op{S2: "https://gobl.org/draft-0/bill/unknown"})
 		add("code", "/$schema", Op{S2: "https://example.com/not-gobl"})
+		// the same header damage on a SIGNED envelope (verification reads the header)
+		for _, k := range []string{"remove", "null", "retype"} {
+			add(k, "/head/dig", Op{B: true, I: 1})
+			add(k, "/head", Op{B: true, I: 1})
+			add(k, "/head/uuid", Op{B: true})
+			add(k, "/head/dig/val", Op{B: true})
+			add(k, "/head/dig/alg", Op{B: true})
+		}
+		add("setstr", "/head/uuid", Op{B: true, S2: "not-a-uuid"})
+		add("setstr", "/head/uuid", Op{S2: "00000000-0000-0000-0000-000000000000"})
+		add("emptyobj", "/head", Op{B: true})
 	}
 	for _, n := range nodes[u.from:to] {
 		if n.Ptr == "" {
@@ -173,7 +184,7 @@ func planC14members(c *Ctx, run int64) *Plan {
 		switch n.V.K {
 		case 's':
 			add("alter", n.Ptr, Op{I: int64(r.IntN(1 << 20))})
-			add("setstr", n.Ptr, Op{S2: Pick(r, []string{"", " ", "0", "-", "%", "9999999999999999999999", "1e9", "\u0000", "ÿ", "a.b.c", "--1", "1.2.3", "٣"})})
+			add("setstr", n.Ptr, Op{S2: Pick(r, []string{"", " ", "0", "-", "%", "9999999999999999999999", "1e9", "\u0000", "ÿ", "a.b.c", "--1", "1.2.3", "٣", "1." + strings.Repeat("0", 70), "0." + strings.Repeat("0", 30) + "1", "5." + strings.Repeat("0", 64) + "%", "-0", "00012", "1e-400", "9223372036854775807", "92233720368547758.08"})})
 			// unknown-code substitution by member name
 			switch n.Key {
 			case "currency":
@@ -565,7 +576,14 @@ func execC14(x *X) {
 		nv := len(x.R.Violations)
 		switch x.P.Check {
 		case "members":
-			dam, ok := c14mutate(base.Clone(), op)
+			src := base
+			if op.B && strings.HasPrefix(op.S, "/head") {
+				if sb, err := ParseJV(x.signedEnv(d)); err == nil && sb.Get("sigs") != nil {
+					src = sb
+					x.Probe("signed-envelope-header-damaged")
+				}
+			}
+			dam, ok := c14mutate(src.Clone(), op)
 			if !ok {
 				continue
 			}
